@@ -1,15 +1,18 @@
 (* C06 — the generated ninja file is a well-formed build graph (partial: see below).
    Proved: the file is the header followed by the ordered union of the configured builds'
    statement sets, in which identical statements collapse (every statement text occurs once) and
-   first occurrences keep their place. The executable predicate wf_manifestb (one statement per
-   output, rules defined once and before use, app outputs are targets) is evaluated on every
-   file of the model and of the implementation; its general proof (which needs hash injectivity
-   and a case analysis over all statement kinds) is not done. *)
+   first occurrences keep their place; and the clause "rules before use": every build statement
+   that uses a rule other than phony comes after a statement that reads as the definition of a
+   rule of that name (C06_rules_before_use, for every project and selection, downloads, custom
+   builds, LINK and POST_LINK included). The executable predicate wf_manifestb (additionally: one
+   statement per output, rules defined once, app outputs are targets) is evaluated on every file
+   of the model and of the implementation; the one-producer-per-output clause is not a theorem —
+   it is false for the inputs of the open findings K06. *)
 From Coq Require Import Ascii String List NArith.
 Import ListNotations.
 Require Import Laze.model.Base Laze.model.Env Laze.model.Allow Laze.model.Ninja Laze.model.Ctx
         Laze.model.Resolver Laze.model.Imports Laze.model.Generate Laze.model.Checks
-        Laze.proofs.StmtFacts Laze.proofs.GenerateFacts.
+        Laze.proofs.StmtFacts Laze.proofs.GenerateFacts Laze.proofs.WfFacts.
 Open Scope list_scope.
 
 Theorem C06_file_shape_partial : forall H EV b le bsel asel local part select disable cli_env g,
@@ -25,6 +28,15 @@ Theorem C06_file_shape_partial : forall H EV b le bsel asel local part select di
                 In t (map show_stmt es).
 Proof. exact generate_shape. Qed.
 Print Assumptions C06_file_shape_partial.
+
+(* rules before use, on the statement texts (what ninja reads) *)
+Theorem C06_rules_before_use : forall H EV b le bsel asel local part select disable cli_env g,
+  generate H EV b le bsel asel local part select disable cli_env = Ok g ->
+  forall pre bld suf, gr_stmts g = pre ++ SBuild bld :: suf ->
+    nb_rule bld = S_ "phony" \/
+    exists x, In x pre /\ exists r, show_stmt x = show_rule r /\ nr_name r = nb_rule bld.
+Proof. exact generate_rules_before_use. Qed.
+Print Assumptions C06_rules_before_use.
 
 (* inserting into a statement set never moves or removes what is there *)
 Theorem C06_first_occurrence_kept : forall es acc, exists t,
